@@ -237,6 +237,11 @@ func (x *Exec) frameCall(st *State, ins ssa.Instruction, c *ssa.CallCommon, ctr 
 					ok = tFalse
 				}
 			}
+		case strings.HasPrefix(m, "*") && x.boxedSlice(env, strings.TrimSpace(m[1:])) != nil:
+			// *v where v is an interface value holding a slice: the slice's elements
+			bv := x.boxedSlice(env, strings.TrimSpace(m[1:]))
+			sl := bv.T.Underlying().(*types.Slice)
+			ok = x.allowedWrite(st, "M", typeKey(sl.Elem()), 0, len(flatten(sl.Elem())), bv.sliceArr())
 		default:
 			p, err := env.evalAddr(m)
 			if err != nil {
@@ -341,4 +346,17 @@ func (x *Exec) anyRegions(m string, pkg *ssa.Package) []anyHome {
 		out = append(out, anyHome{h.base, h.lo + lo, h.lo + hi})
 	}
 	return out
+}
+
+// boxedSlice returns the slice held by an interface-typed specification expression, if that is known.
+func (x *Exec) boxedSlice(env *Env, expr string) *Value {
+	v, err := env.evalString(expr)
+	if err != nil || v.T == nil || !isInterface(v.T) || len(v.L) != 1 {
+		return nil
+	}
+	bv, ok := env.st.boxed[v.L[0].S]
+	if !ok || !isSlice(bv.T) {
+		return nil
+	}
+	return &bv
 }
